@@ -263,6 +263,13 @@ def make_app(rec: Recorder, sc: dict, on_ls_start: Optional[Callable[[], None]] 
         try:
             if parts[0] == "hang":
                 await _sleep(3600)
+            elif parts[0] == "big":
+                # /big/<n>: a response of n x 64 KiB, far more than the socket buffers take: with a client that does not read
+                # the application is held in send() by back-pressure
+                await send({"type": "http.response.start", "status": 200, "headers": []})
+                for _ in range(int(parts[1])):
+                    await send({"type": "http.response.body", "body": b"z" * 65536, "more_body": True})
+                await send({"type": "http.response.body", "body": b""})
             elif parts[0] == "state":
                 tag = parts[1]
                 before = _jsonable_state(scope["state"])
@@ -441,6 +448,25 @@ class Client(threading.Thread):
 
     def after_connect(self) -> None:
         pass
+
+    def do_connect_small(self) -> None:
+        """connect with a small receive buffer: a client that then does not read fills the path after a few hundred KiB"""
+        s = socket.socket()
+        s.settimeout(2.0)
+        s.setsockopt(socket.SOL_SOCKET, socket.SO_RCVBUF, 4096)
+        try:
+            s.connect(("127.0.0.1", self.port))
+        except OSError as e:
+            self.ev("connect", result="refused" if isinstance(e, ConnectionRefusedError) else "error", cls=type(e).__name__)
+            s.close()
+            return
+        self.sock = s
+        self.ev("connect", result="ok")
+        self.after_connect()
+
+    def do_hold(self, seconds: float) -> None:
+        """keep the connection open without reading"""
+        self.do_sleep(seconds)
 
     def _recv(self, timeout: float) -> Optional[bytes]:
         """bytes, b"" on EOF/reset, None on timeout"""
@@ -1481,7 +1507,7 @@ def model_request(sc: dict, cmd: str, flags: Dict[str, dict]) -> dict:
         for st in c["steps"]:
             if st[0] == "at":
                 t = float(st[1])
-            elif st[0] == "connect":
+            elif st[0] in ("connect", "connect_small"):
                 ev(t, "connect", cid=cid, kind=kind, wait=trio)
                 if kind == "h2":
                     t += 0.15          # the client pumps the settings exchange first
@@ -1498,8 +1524,8 @@ def model_request(sc: dict, cmd: str, flags: Dict[str, dict]) -> dict:
                 parts = st[1].strip("/").split("/")
                 rem: Optional[int]
                 writes: List[tuple] = []
-                if parts[0] == "hang":
-                    rem = None
+                if parts[0] in ("hang", "big"):
+                    rem = None         # `big` is only requested by clients that do not read: the handler never gets to the end
                 elif parts[0] == "state":
                     tag = int(parts[1])
                     rem = ticks(int(parts[2]) / 1000.0) if len(parts) > 2 else 0
